@@ -22,6 +22,10 @@ let mode_of s =
   let s = if split_of s then sub1 s else s in
   if s = "d" then ModeData
   else if s.[0] = 't' then ModeTokio (n_of_string (sub1 s))
+  (* x<k>: tokio AsyncRead with one k-byte ReadBuf kept until full.  The model has no such reader; by C19's bytes-intact
+     theorems the concatenation of what any reader obtains is the payload, and results are compared by concatenation,
+     so the model column is the ModeTokio k run *)
+  else if s.[0] = 'x' then ModeTokio (n_of_string (sub1 s))
   else ModeRead (n_of_string (sub1 s))
 let parse_item t =
   if t = "F" then Arrive Fin
